@@ -22,7 +22,7 @@ plus, per fired user event, the final Value (value, errors, result, promise) and
 queue and task set drained.  Values are canonical: [0] None, [1,z] int, [2] error triple, [3,[items]] list,
 [4,v] a nested Value object holding v (read with getValue(recursive=False)).
 """
-import sys, os, threading
+import sys, os, threading, copy
 sys.path.insert(0, os.path.dirname(os.path.abspath(__file__)))
 import common
 from common import Prop
@@ -137,11 +137,11 @@ def canon_val(x):
 
 
 def canon_spec(r):
-    """canonical form of a scripted result (None / int / list of ints)"""
+    """canonical form of a scripted result (None / int / list of ints and lists)"""
     if r is None:
         return [0]
     if isinstance(r, list):
-        return [3, [[1, z] for z in r]]
+        return [3, [canon_spec(z) for z in r]]
     return [1, r]
 
 
@@ -221,7 +221,7 @@ def run_script(case):
         vals[spec['l']] = app.fire(ev, *(('app', 'other') if spec['b'] else ('app',)))
 
     def fresh(r):
-        return list(r) if isinstance(r, list) else r
+        return copy.deepcopy(r) if isinstance(r, list) else r
 
     def mk_plain(L, i, hd):
         def fn(self, event):
@@ -305,7 +305,7 @@ def coq_py(r):
     if r is None:
         return 'PNone'
     if isinstance(r, list):
-        return '(PList [%s])' % '; '.join('PInt %d' % z for z in r)
+        return '(PList [%s])' % '; '.join(coq_py(z) for z in r)
     return '(PInt %d)' % r
 
 
@@ -355,8 +355,9 @@ class Gen:
         rng = self.rng
         if rng.random() < pnone:
             return None
-        if rng.random() < self.p['lst']:
-            return [rng.choice(VALUES) for _ in range(rng.choice([0, 1, 2]))]
+        if rng.random() < self.p['lst']:      # list results: empty, flat, nested
+            return [rng.choice(VALUES) if rng.random() < 0.75 else [rng.choice(VALUES) for _ in range(rng.choice([0, 1, 2]))]
+                    for _ in range(rng.choice([0, 1, 2]))]
         return rng.choice(VALUES)
 
     def ev(self, d):
@@ -389,9 +390,11 @@ class Gen:
 def gen_case(rng, tier):
     p = {'s': rng.choice([0.5, 0.8, 1.0]), 'f': rng.choice([0.3, 0.6, 1.0]), 'n': rng.choice([0, 0.3, 0.7]),
          'g': rng.choice([0, 0.25, 0.5, 0.7]), 'r': rng.choice([0, 0.2, 0.4]), 'gr': rng.choice([0, 0.25, 0.5]),
-         'lst': rng.choice([0, 0, 0.1, 0.3]), 'nest': rng.choice([0, 0, 0.15, 0.35]), 'stop': rng.choice([0, 0, 0.08, 0.2])}
+         'lst': rng.choice([0, 0.1, 0.1, 0.3]), 'nest': rng.choice([0, 0, 0.15, 0.35]), 'stop': rng.choice([0, 0, 0.08, 0.2])}
     if rng.random() < 0.15:     # plain handlers only, many raises and nested-Value returns (err / errors-flag interplay)
         p.update(g=0, r=0.4, nest=0.4, s=1.0)
+    elif rng.random() < 0.12:   # list results first, further results, nested Values
+        p.update(lst=0.6, nest=0.3, r=0.1)
     g = Gen(rng, rng.choice([2, 4, 8, 12]), rng.choice([1, 2, 3]), p)
     roots = []
     for _ in range(rng.choice([1, 1, 2, 3])):
@@ -645,21 +648,7 @@ class C04(Prop):
         return probs[0] if probs else None
 
     def finding_class(self, case, obs, what):
-        # C04-list-result-merged: the first result of an event is itself a list and a later result exists:
-        # Value.setValue appends the later results to that list
-        if not (isinstance(obs, dict) and 'log' in obs and '(event ' in what):
-            return None
-        L = int(what.rsplit('(event ', 1)[1].rstrip(')'))
-        specs = {e['l']: e for e in walk_events(case['roots'])}
-        if L not in specs:
-            return None
-        e = specs[L]
-        fin = {f[0]: f for f in obs['final']}
-        results, raises = event_results(e, obs['log'], fin)
-        has_nest = bool(nested_labels(e))
-        if what.startswith('value: event'):
-            if len(results) >= 2 and results[0][0] == 3 and fin[L][1] == [3, results[0][1] + results[1:]]:
-                return 'C04-list-result-merged'
+        # no open finding is recorded for C04 (the list-first defect is repaired by fixes/C04_list_result.patch)
         return None
 
     def nontrivial(self, case, obs):
